@@ -254,15 +254,16 @@ def gen_z(rng, n, malformed=False):
             z = [x / s for x in z]
     return z
 
-def gen_kind(rng, allow_raise=True):
+def gen_kind(rng, var, allow_raise=True):
+    vals = TS if var == 'T' else PS
     r = rng.random()
     if r < 0.35:
         return ['newton']
     if r < 0.6:
         return ['echo']
     if r < 0.85 or not allow_raise:
-        root = dy(rng, TS + PS)
-        last = root if rng.random() < 0.6 else dy(rng, TS + PS)
+        root = dy(rng, vals)
+        last = root if rng.random() < 0.6 else dy(rng, vals)
         return ['table', root, last]
     return ['raise']
 
@@ -275,8 +276,9 @@ def gen_case(rng):
         pk = gen_pkg(rng)
         n = len(pk['chems'])
         sub = rng.choice(['bT', 'bP', 'bTi', 'bPyi', 'dT', 'dP', 'dTi', 'dPxi'])
-        T = dy(rng, TS + [0, -16] if rng.random() < 0.15 else TS)
-        P = dy(rng, PS + [0, -8192] if rng.random() < 0.15 else PS)
+        # (the stand-in gamma divides by T and P-kernels do not test T, so T <= 0 goes to the T-kernels only)
+        T = dy(rng, TS + [0, -16] if rng.random() < 0.15 and sub in ('bT', 'dT', 'bTi', 'dTi') else TS)
+        P = dy(rng, PS + [0, -8192] if rng.random() < 0.15 and sub in ('bP', 'dP') else PS)
         small = [0, F(1, 4), F(1, 2), 1, F(1, 8), F(3, 4)]
         return {'kind': 'kernel', 'sub': sub, 'pkg': pk, 'T': T, 'P': P,
                 'v1': gen_vec(rng, n, [1024, 4096, 512, 32768] if sub == 'bPyi' else
@@ -292,13 +294,14 @@ def gen_case(rng):
         T = dy(rng, TS) if which[0] == 'P' else None
         P = dy(rng, PS + [8388608]) if which[0] == 'T' else None
         c = {'kind': 'solve', 'which': which, 'pkg': pk, 'z': z, 'T': T, 'P': P, 'via_call': via_call,
-             'ks': gen_kind(rng), 'ki': gen_kind(rng, allow_raise=rng.random() < 0.3), 'nweg': rng.choice([0, 1, 1, 2])}
+             'ks': gen_kind(rng, which[0]), 'ki': gen_kind(rng, which[0], allow_raise=rng.random() < 0.3),
+             'nweg': rng.choice([0, 1, 1, 2])}
         if via_call and rng.random() < 0.3:   # malformed argument combinations of __call__
             c['T'], c['P'] = rng.choice([(None, None), (300., 65536.), (0., 65536.), (300., 0.), (0., 0.), (0., None)])
         return c
     if r < 0.88:
         ch = gen_chem(rng)
-        return {'kind': 'tsat', 'chem': ch, 'P': dy(rng, PS), 'ks': gen_kind(rng), 'ki': gen_kind(rng, allow_raise=rng.random() < 0.3)}
+        return {'kind': 'tsat', 'chem': ch, 'P': dy(rng, PS), 'ks': gen_kind(rng, 'T'), 'ki': gen_kind(rng, 'T', allow_raise=rng.random() < 0.3)}
     # cache histories
     pk = gen_pkg(rng, n=rng.choice([3, 4, 5]))
     n = len(pk['chems'])
